@@ -1042,10 +1042,15 @@ def _run(ctx, lean_ok, tmp):
     # ---- B. profile files -------------------------------------------------------------------------
     for i in range(ctx.n(3, 40)):
         ps = sc.profile_spec(rng, chems=rng.choice([(), ('oxygen',), ('methane', 'oxygen')]))
-        path, _p = check_profile(ctx, job, tmp, i, ps)
-        os.remove(path)
+        try:
+            path, _p = check_profile(ctx, job, tmp, i, ps)
+            os.remove(path)
+        except Exception as e:
+            ctx.violation('profile-readback-raises', 'writing a profile with create_nc_db/fill_nc_db and reading it back raises %s' % type(e).__name__,
+                          {'error': '%s: %s' % (type(e).__name__, e), 'trace': traceback.format_exc()[-600:], 'profile': sc.jsonable(ps)})
     # ---- C. real simulations ---------------------------------------------------------------------
     mk = {'sbm': sc.sbm_spec, 'bpm': sc.bpm_spec, 'spm': sc.spm_spec}
+    done = {}
     for n, (kind, kw) in enumerate(sim_plan(ctx)):
         m = spec = None
         for attempt in range(6):
@@ -1058,6 +1063,11 @@ def _run(ctx, lean_ok, tmp):
                     nc, _d, _n, _u, _c = sc.write_profile(spec['profile'], os.path.join(cdir, 'prf.nc'))
                     nc.close()
                 prf = sc.profile_from_file(os.path.join(cdir, 'prf.nc'))
+            except Exception as e:
+                ctx.violation('profile-readback-raises', 'writing the profile of a simulation with create_nc_db/fill_nc_db and reading it back raises %s' % type(e).__name__,
+                              {'error': '%s: %s' % (type(e).__name__, e), 'trace': traceback.format_exc()[-600:], 'profile': sc.jsonable(spec['profile'])})
+                break
+            try:
                 m = sc.RUN[kind](spec, prf)
                 ok = {'sbm': lambda: len(m.t) > 3, 'bpm': lambda: len(m.t) > 3, 'spm': lambda: len(m.zi) > 3 and len(m.zo) > 1}[kind]()
                 if ok:
@@ -1067,7 +1077,9 @@ def _run(ctx, lean_ok, tmp):
             m = None
         if m is None:
             ctx.notes.append('no completed %s simulation for plan entry %d' % (kind, n))
+            ctx.count('no completed simulation ' + kind)
             continue
+        done[kind] = done.get(kind, 0) + 1
         tag = '%s case %d' % (kind, n)
         rec = ABS[kind](m)
         ctx.nontrivial.add(layout_key(kind, rec))
@@ -1082,6 +1094,9 @@ def _run(ctx, lean_ok, tmp):
                         'state vector': int(np.shape(rec[ARRAYS[kind][1]])[1]), 'particles': len(rec['particles'])})
         check_sim(ctx, job, cdir, kind, m, spec, tag)
         shutil.rmtree(cdir, ignore_errors=True)
+    for kind in ('sbm', 'bpm', 'spm'):
+        ctx.oblige('at least one completed %s simulation was saved and reloaded (the check is not vacuous)' % kind,
+                   done.get(kind, 0) > 0, 'none of the planned %s simulations completed' % kind)
     # ---- D. the Lean model on the same records -----------------------------------------------------
     if not lean_ok:
         return
